@@ -56,6 +56,9 @@ func c01Streams(rich bool) (exprs []*refsem.E, docs []*val.V) {
 			}
 		}
 	}
+	// an integer key and a string key with the same text are two entries of the stream
+	docs = append(docs, val.MapV(val.IntV(1), val.StrV("a"), val.StrV("1"), val.IntV(1), val.StrV("b"), val.IntV(0)),
+		val.MapV(val.StrV("0"), val.SeqV(val.IntV(1)), val.IntV(0), val.SeqV(val.IntV(2), val.IntV(3))))
 	for _, e := range refsem.CoreAlphabet(true).Enumerate(2) {
 		exprs = append(exprs, refsem.Bin("pipe", refsem.Leaf("splat"), e))
 	}
@@ -138,7 +141,7 @@ func c01Run(c *fw.Ctx) error {
 					re, rd := reduceCase(e, d, r.Kind, true)
 					rp, _, _ := impl.Parse(re.String())
 					rr := compareCase(re, rp, rd, true)
-					c.Violation(r.Kind+":"+re.String(), int64(re.Size())*1000+int64(rd.Size()), exprCase{Expr: re.String(), AST: re, Doc: rd.JSON(), Kind: r.Kind},
+					c.Violation(r.Kind+":"+re.String(), int64(re.Size())*1000+int64(rd.Size()), exprCase{Expr: re.String(), AST: re, Doc: rd.YAMLFlow(), Kind: r.Kind},
 						fmt.Sprintf("expr %q on %s: %s   (first seen as %q on %s)", re.String(), rd.JSON(), rr.Detail, text, d.JSON()))
 				}
 			}
